@@ -206,6 +206,155 @@ class PartA:
             self.rig = None
 
 
+def _send_during_link_loss(ctx, rounds):
+    """Application threads keep sending while the peer closes the link, with the protocol thread slowed at its statements
+    (seeded yield injection): every send must return and the close sequence must finish."""
+    import secsgem.secs.functions as F
+    from lib.hsmsrig import Rig
+
+    rng = ctx.rng
+    inj = sched.YieldInjector(["secsgem/hsms/protocol.py", "secsgem/common/protocol.py", "secsgem/common/protocol_dispatcher.py"])
+    inj.install()
+    try:
+        for r in range(rounds):
+            rig = Rig(active=False, t6=2.0, t3=1.0)
+            if not rig.connect_and_select():
+                ctx.unsure("send during link loss: could not select")
+                continue
+            stop = threading.Event()
+            results = []
+
+            @stuck.harness_thread
+            def sender():
+                while not stop.is_set():
+                    try:
+                        results.append(rig.protocol.send_stream_function(F.SecsS01F01()))
+                    except Exception as exc:
+                        results.append(repr(exc))
+            inj.begin(rng.getrandbits(32), p=rng.choice([0.2, 0.4]), slow=("protocol_receiver", "pipeConnection_receiver") if rng.random() < 0.8 else ())   # protocol thread and close sequence slowed
+            ths = [threading.Thread(target=sender, daemon=True, name=f"harness-sender-{i}") for i in range(rng.choice([1, 2, 3]))]
+            for t in ths:
+                t.start()
+            time.sleep(rng.choice([0.005, 0.02, 0.05]))
+            rig.pipe.peer_close()
+            closed = rig.pipe.wait_closed(4.0)
+            time.sleep(0.05)
+            stop.set()
+            for t in ths:
+                t.join(4.0)
+            sig, yields, _ = inj.end()
+            ctx.count("partA.sends_racing_the_link_loss")
+            ctx.case(("A-send-race", sig), nontrivial=True)
+            wit = {"scenario": "application sends while the peer closes the link", "sends": len(results), "schedule_signature": sig}
+            rx = rig.pipe._rx_thread
+            stuck_threads = [t for t in ths if t.is_alive()] + ([rx] if (not closed and rx is not None and rx.is_alive()) else [])
+            if stuck_threads:
+                if stuck.blocked_forever(stuck_threads, watch=0.8, samples=5):
+                    ctx.violation("close-sequence-blocked-forever" if not closed else "send-while-link-is-lost-blocked-forever", {**wit, "stacks": stuck.stacks(8)})
+                else:
+                    ctx.unsure(f"send during link loss: threads still moving after the watchdog: {wit}")
+                continue        # the rig is wedged: leave it
+            if any(isinstance(x, str) for x in results):
+                ctx.violation("send-raises-while-the-link-is-lost", {**wit, "error": next(x for x in results if isinstance(x, str))[:200]})
+            th, ok, _ = PartA.run_thread(None, rig.protocol.disable, 4.0)
+            if not ok:
+                if stuck.blocked_forever([t for t in (rig.pipe._rx_thread,) if t is not None and t.is_alive()] or [th], watch=0.8, samples=5):
+                    ctx.violation("disable-blocked-forever", {**wit, "stacks": stuck.stacks(8)})
+                else:
+                    ctx.unsure(f"send during link loss: disable() did not return: {wit}")
+    finally:
+        inj.uninstall()
+
+
+def _forced_send_at_link_loss(ctx):
+    """Forced schedule: the link is lost; the close sequence is held right before it stops the protocol thread; an application
+    thread sends (the send fails, as it must, and takes its entry back from the send queue) while the protocol thread is held
+    right before it takes that entry; then both are released. The close sequence must still finish."""
+    import secsgem.secs.functions as F
+    from lib.hsmsrig import Rig
+
+    at_stop = threading.Event()
+    release_stop = threading.Event()
+    at_get = threading.Event()
+    box = {}
+
+    def tracer(frame, event, arg):
+        if event != "call":
+            return None
+        name, fn = frame.f_code.co_name, frame.f_code.co_filename
+        if name == "_on_disconnected" and fn.endswith("hsms/protocol.py"):
+            needle, which = "self._thread.stop()", "stop"
+        elif name == "_process_send_queue" and fn.endswith("hsms/protocol.py"):
+            needle, which = "self._send_queue.get", "get"
+        elif name == "send_message" and fn.endswith("common/protocol.py"):
+            needle, which = "self._fail_pending_sends()", "fail"
+        else:
+            return None
+        try:
+            with open(fn) as fh:
+                lines = fh.readlines()
+        except OSError:
+            return None
+
+        def line(frame, event, arg):
+            if event == "line" and needle in lines[frame.f_lineno - 1]:
+                if which == "stop" and not at_stop.is_set():
+                    at_stop.set()
+                    release_stop.wait(6.0)
+                elif which == "fail" and at_stop.is_set() and not at_get.is_set():
+                    at_get.wait(2.0)         # the sender takes its entry back only when the protocol thread is about to take it
+                elif which == "get" and at_stop.is_set() and not at_get.is_set():
+                    at_get.set()
+                    q = frame.f_locals["self"]._send_queue
+                    end = time.monotonic() + 3.0
+                    while not q.empty() and time.monotonic() < end:      # until the failed send has taken its entry back
+                        time.sleep(0.0005)
+            return line
+        return line
+
+    threading.settrace(tracer)
+    try:
+        rig = Rig(active=False, t6=2.0, t3=1.0)
+        if not rig.connect_and_select():
+            ctx.unsure("forced send at link loss: could not select")
+            return
+        rig.pipe.peer_close()
+        if not at_stop.wait(4.0):
+            ctx.count("partA.forced_send_probe_not_reached")
+            release_stop.set()
+            return
+
+        @stuck.harness_thread
+        def sender():
+            try:
+                box["r"] = rig.protocol.send_stream_function(F.SecsS01F01())
+            except Exception as exc:
+                box["exc"] = repr(exc)
+        th = threading.Thread(target=sender, daemon=True, name="harness-sender")
+        th.start()
+        at_get.wait(2.0)
+        th.join(3.0)
+        release_stop.set()
+        closed = rig.pipe.wait_closed(4.0)
+        ctx.count("partA.forced_send_probes" if at_get.is_set() else "partA.forced_send_probe_not_reached")
+        ctx.case(("A-forced-send", at_get.is_set()), nontrivial=True)
+        wit = {"scenario": "forced: application send between link loss and the stop of the protocol thread", "send_result": box.get("r"), "send_error": box.get("exc")}
+        if not closed or th.is_alive():
+            rx = rig.pipe._rx_thread
+            watch = [t for t in (rx, th) if t is not None and t.is_alive()]
+            if stuck.blocked_forever(watch, watch=0.8, samples=5):
+                ctx.violation("close-sequence-blocked-forever" if not closed else "send-while-link-is-lost-blocked-forever", {**wit, "stacks": stuck.stacks(8)})
+            else:
+                ctx.unsure(f"forced send at link loss: still moving after the watchdog: {wit}")
+            return
+        if box.get("r") is True:
+            ctx.violation("send-while-not-connected-reports-success", wit)
+        th2, ok, _ = PartA.run_thread(None, rig.protocol.disable, 4.0)
+    finally:
+        threading.settrace(None)
+        release_stop.set()
+
+
 def _frame_bounds(stream):
     bounds, pos = [], 0
     while pos + 4 <= len(stream):
@@ -243,6 +392,9 @@ def part_a(ctx):
             ctx.case(("A", True, "burst_1100_linktest", offset, follow, "whole"), nontrivial=True)
             ctx.count("partA.cut_after_a_burst_of_requests")
             a.case(True, "burst_1100_linktest", burst, offset, follow, "whole")
+    _send_during_link_loss(ctx, 6 if ctx.quick else 150)
+    if ctx.shard % 4 == 0:
+        _forced_send_at_link_loss(ctx)
     if a.rig is not None:
         a.run_thread(a.rig.protocol.disable, 3.0)
     ctx.exhaustive["partA_every_cut_offset_x_state_x_followup_x_segmentation"] = True
